@@ -11,7 +11,7 @@
 (* changes.  Checked: consistency of the function (see the properties at the end).    *)
 EXTENDS Reports, ShuffleDefs
 
-CONSTANTS V, C, R, E, U_, MaxTau, Pkgs, OffKeys, Rich
+CONSTANTS V, C, R, E, U_, MaxTau, Pkgs, OffKeys, Rich, NSh
 VARIABLES tau, rho, done, sh2, sh3
 vars == <<tau, rho, done, sh2, sh3>>
 
@@ -20,7 +20,7 @@ Kappa == [i \in 1..V |-> i]
 Lambda == [i \in 1..V |-> 10 + i]
 Reversed(s) == [i \in 1..Len(s) |-> s[Len(s) + 1 - i]]
 Alternate == [i \in 1..V |-> (i - 1) % C]
-ShSet == {Base(V, C), Reversed(Base(V, C)), Alternate}
+ShSet == IF NSh >= 3 THEN {Base(V, C), Reversed(Base(V, C)), Alternate} ELSE IF NSh = 2 THEN {Base(V, C), Alternate} ELSE {Alternate}
 
 RECURSIVE SortSet(_)
 SortSet(S) == IF S = {} THEN <<>> ELSE LET m == CHOOSE y \in S : \A z \in S : y <= z IN <<m>> \o SortSet(S \ {m})
@@ -56,10 +56,12 @@ Reduced(t, s2, s3, core) ==
   {Guar(core, pkg, slot, Creds(q, KeysFor(t, slot), FALSE), 1, pre) :
      pkg \in Pkgs, slot \in {s \in {t, t - R} : s >= 0},
      q \in {Full(MCurM(t, s2), core), Full(MPrevM(t, s2, s3), core)}, pre \in {<<>>} \cup {<<p>> : p \in Pkgs}}
+\* second guarantee of a pair: current slot or previous rotation, no prerequisites
+Small(t, s2, s3, core) == {y \in Reduced(t, s2, s3, core) : y.pre = <<>>}
 Exts(t, s2, s3) ==
   {<<>>} \cup {<<g>> : g \in IF Rich THEN Singles(t, s2, s3) ELSE UNION {Reduced(t, s2, s3, c) : c \in 0..(C - 1)}}
-  \cup {<<a, b>> : a \in Reduced(t, s2, s3, 0), b \in Reduced(t, s2, s3, 1)}
-  \cup {<<b, a>> : a \in {y \in Reduced(t, s2, s3, 0) : y.pre = <<>>}, b \in {y \in Reduced(t, s2, s3, 1) : y.pre = <<>> /\ y.slot = t}}
+  \cup {<<a, b>> : a \in Reduced(t, s2, s3, 0), b \in Small(t, s2, s3, 1)}
+  \cup {<<b, a>> : a \in {y \in Small(t, s2, s3, 0) : y.slot = t}, b \in {y \in Small(t, s2, s3, 1) : y.slot = t}}
 
 Init == /\ tau = 0 /\ rho = [c \in 1..C |-> NoReport] /\ done = {} /\ sh2 \in ShSet /\ sh3 \in ShSet
 
@@ -90,10 +92,9 @@ Block ==
             IN \E avail \in SUBSET (Live(rho) \ timedout) :
                  LET gone == avail \cup timedout
                      marked == [c \in 1..C |-> IF c \in gone THEN [rho[c] EXCEPT !.live = FALSE] ELSE rho[c]]
-                     st == St(t, marked, done)
-                     M == MCurM(t, s2)
-                     MS == MPrevM(t, s2, s3)
-                 IN \E ext \in Exts(t, s2, s3) :
+                 IN \* singleton quantifiers: evaluate the state record and the two assignments once
+                    \E st \in {St(t, marked, done)} : \E M \in {MCurM(t, s2)} : \E MS \in {MPrevM(t, s2, s3)} :
+                    \E ext \in Exts(t, s2, s3) :
                       IF StrictlyAdmissible(PM, M, MS, st, ext)
                       THEN /\ rho' = RhoNext(PM, st, ext)
                            /\ done' = done \cup {rho[c].pkg : c \in avail}
